@@ -112,3 +112,24 @@ func init() {
 			return append(b, same(n(tier, 2, 6), Batch{Mode: "loopback", Timeout: 20 * time.Minute, Procs: 8})...)
 		}}
 }
+
+func init() {
+	specs["C06"] = &Spec{ID: "C06", Level: "exploration", Parallel: 6,
+		Assumptions: []string{loopAssumption, hookAssumption + " (decides the unset default 255.255.255.255:60000, which nobody can listen on here)", "controllers are told apart by unique serial numbers; each worker goroutine owns its farm and runs its cases one at a time"},
+		Plan: func(tier string) []Batch {
+			b := same(n(tier, 2, 8), Batch{Mode: "hook", Timeout: 20 * time.Minute})
+			return append(b, same(n(tier, 2, 6), Batch{Mode: "loopback", Timeout: 30 * time.Minute, Procs: 8})...)
+		}}
+}
+
+func init() {
+	specs["C08"] = &Spec{ID: "C08", Level: "exploration", Parallel: 4,
+		Assumptions: []string{loopAssumption, "the race detector reports only accesses that executed (happens-before based): silence means no race on the calls and interleavings listed here", "a call is judged only when the farm measurably sent its reply within 0.85 T of receiving the request (planned delays <= 0.7 T)", "TCP from a fixed bind port is left out (a 4-tuple cannot be reused within TIME_WAIT - kernel behaviour, not the library's)", "schedules are perturbed (GOMAXPROCS 2/4/16, adversarial reply delays), not enumerated"},
+		Plan: func(tier string) []Batch {
+			if tier == "thorough" {
+				return []Batch{{Mode: "race", Race: true, Procs: 2, Timeout: 40 * time.Minute}, {Mode: "race", Race: true, Procs: 4, Timeout: 40 * time.Minute}, {Mode: "race", Race: true, Procs: 16, Timeout: 40 * time.Minute},
+					{Mode: "race", Race: true, Procs: 8, Timeout: 40 * time.Minute}, {Mode: "plain", Procs: 2, Timeout: 40 * time.Minute}, {Mode: "plain", Procs: 16, Timeout: 40 * time.Minute}, {Mode: "plain", Procs: 4, Timeout: 40 * time.Minute}, {Mode: "plain", Procs: 8, Timeout: 40 * time.Minute}}
+			}
+			return []Batch{{Mode: "race", Race: true, Procs: 4, Timeout: 15 * time.Minute}, {Mode: "race", Race: true, Procs: 16, Timeout: 15 * time.Minute}, {Mode: "plain", Procs: 2, Timeout: 15 * time.Minute}, {Mode: "plain", Procs: 8, Timeout: 15 * time.Minute}}
+		}}
+}
